@@ -713,7 +713,8 @@ def extra_checks(rng, tier):
 
 LEVEL_TEXT = ('Theorems for every content, every chunk size >= 1 (and -1), every n with 0 <= n <= 2^63, every errno, every runtime satisfying the stated '
               'contracts: chunking independence of compute_file_checksum (by induction on the unread part), last_bytes = final min(n,size) bytes + count before them, '
-              'errno filters of ensure_tree / delete_if_exists (total case analysis) and their idempotence, write_to_tempfile specification. The five function bodies are '
+              'errno filters of ensure_tree / delete_if_exists (total case analysis) and their idempotence, write_to_tempfile specification for contents that fit one '
+              'write(2); the unbounded write_to_tempfile statement is refuted (known finding W1: os.write return value ignored). The five function bodies are '
               'translated statement by statement from the source on every run and proved equal to the model; defaults and errno numbers are regenerated.')
 LEVEL_NOTE = ('Trusted: Coq kernel; translator; the runtime contracts (hash streaming homomorphism, file-object model, makedirs/unlink/mkstemp/write/close clauses) — '
               'tested on the real runtime on every run; the concrete file-system model is only a witness/correspondence vehicle. Closed under the global context.')
